@@ -47,40 +47,47 @@ class NeurolucidaAscToSwc(Transform[str, Tree]):
         next_id = 0
         typee = [types.undefined]
 
-        def walk_ast(root: ASTNode, pid: int = -1) -> None:
-            nonlocal next_id, typee
-            match root.type:
-                case ASTType.ROOT:
-                    for n in root.children:
-                        walk_ast(n)
-
-                case ASTType.TREE:
-                    match root.value:
-                        case "AXON":
-                            typee.append(types.axon)
-                        case "DENDRITE":
-                            typee.append(types.basal_dendrite)
-
-                    for n in root.children:
-                        walk_ast(n)
-
+        def walk_ast(ast: ASTNode) -> None:
+            # explicit stack: the AST is as deep as a branch is long, which
+            # easily exceeds the recursion limit
+            nonlocal next_id
+            stack: list[tuple[ASTNode | None, int]] = [(ast, -1)]
+            while len(stack) > 0:
+                root, pid = stack.pop()
+                if root is None:  # leave a tree
                     typee.pop()
+                    continue
 
-                case ASTType.NODE:
-                    x, y, z, r = root.value
-                    idx = next_id
-                    next_id += 1
+                match root.type:
+                    case ASTType.ROOT:
+                        stack.extend((n, -1) for n in reversed(root.children))
 
-                    ndata[names.id].append(idx)
-                    ndata[names.type].append(typee[-1])
-                    ndata[names.x].append(x)
-                    ndata[names.y].append(y)
-                    ndata[names.z].append(z)
-                    ndata[names.r].append(r)
-                    ndata[names.pid].append(pid)
+                    case ASTType.TREE:
+                        match root.value:
+                            case "AXON":
+                                typee.append(types.axon)
+                            case "DENDRITE":
+                                typee.append(types.basal_dendrite)
+                            case _:
+                                typee.append(typee[-1])
 
-                    for n in root.children:
-                        walk_ast(n, pid=idx)
+                        stack.append((None, -1))
+                        stack.extend((n, -1) for n in reversed(root.children))
+
+                    case ASTType.NODE:
+                        x, y, z, r = root.value
+                        idx = next_id
+                        next_id += 1
+
+                        ndata[names.id].append(idx)
+                        ndata[names.type].append(typee[-1])
+                        ndata[names.x].append(x)
+                        ndata[names.y].append(y)
+                        ndata[names.z].append(z)
+                        ndata[names.r].append(r)
+                        ndata[names.pid].append(pid)
+
+                        stack.extend((n, idx) for n in reversed(root.children))
 
         walk_ast(ast)
         tree = Tree(
